@@ -219,3 +219,64 @@ Print Assumptions C15_pushint_regenerated.
 Print Assumptions C15_named_constant_regenerated.
 Print Assumptions C15_constant_block_regenerated.
 Print Assumptions C15_int_constants_pipeline.
+
+(* ------------------------------------------------------------------------------------------------------------
+   Extension (moving whole subroutine bodies, layer 1: isomorphism invariance of the analysis and the search;
+   Lemmas/IsoLemmas.v, non-vacuity on two parsed programs in Lemmas/IsoEx.v) *)
+From Coq Require Import String List NArith ZArith Bool Arith.
+From Tealer Require Import Tables LeafPrelude Leaves Syntax Parse Cfg StackAst Keys Analysis Domains Detect IsoLemmas IsoEx.
+
+(* two functions isomorphic via a block renaming r and a position renaming g: for every fuel the analysis result of f'
+   is the renamed result of f (exceptions / fuel exhaustion included), every context and validation verdict at r b is
+   the one at b, and every detector returns exactly the r-images of the paths, in the same order *)
+Theorem C15_isomorphic_functions :
+  forall (r g : nat -> nat) (f f' : func), fiso r g f f' -> forall fuel : nat,
+  run_all f' fuel = omap (ren_result r) (run_all f fuel) /\
+  forall res : fn_result,
+    (forall b fam, ctx_of (ren_result r res) (r b) fam = ctx_of res b fam) /\
+    (forall b checks ai, validated_in_block (ren_result r res) checks ai (r b) = validated_in_block res checks ai b) /\
+    (forall fuel' name checks,
+       run_detector f' (ren_result r res) fuel' name checks =
+       omap (ren_paths r) (run_detector f res fuel' name checks)).
+Proof. exact iso_verdicts. Qed.
+
+(* verdict reading: same number of paths, "some path" / "no path" identical *)
+Theorem C15_isomorphic_verdict :
+  forall (r g : nat -> nat) (f f' : func) (fuel fuel' : nat) (res : fn_result) (name : string)
+         (checks : bctx -> bool) (ps : list (list nat)),
+  fiso r g f f' ->
+  run_all f fuel = Done res -> run_detector f res fuel' name checks = Done ps ->
+  exists res' ps',
+    run_all f' fuel = Done res' /\ run_detector f' res' fuel' name checks = Done ps' /\
+    ps' = map (map r) ps /\ (ps' = nil <-> ps = nil) /\ Datatypes.length ps' = Datatypes.length ps /\
+    (forall b fam, ctx_of res' (r b) fam = ctx_of res b fam).
+Proof. exact iso_verdict. Qed.
+
+Theorem C15_isomorphic_verdict_conv :
+  forall (r g : nat -> nat) (f f' : func) (fuel fuel' : nat) (res' : fn_result) (name : string)
+         (checks : bctx -> bool) (ps' : list (list nat)),
+  fiso r g f f' ->
+  run_all f' fuel = Done res' -> run_detector f' res' fuel' name checks = Done ps' ->
+  exists res ps,
+    run_all f fuel = Done res /\ run_detector f res fuel' name checks = Done ps /\
+    res' = ren_result r res /\ ps' = map (map r) ps.
+Proof. exact iso_verdict_conv. Qed.
+
+(* the isomorphism is decidable up to injectivity of the renamings: the model's check *)
+Theorem C15_iso_check_sound :
+  forall (r g : nat -> nat) (f f' : func),
+  (forall x y, r x = r y -> x = y) -> (forall x y, g x = g y -> x = y) ->
+  iso_check r g f f' = true -> fiso r g f f'.
+Proof. exact iso_check_sound. Qed.
+
+(* two parsed programs that differ by moving a subroutine body are accepted, and the reported path moves with it *)
+Theorem C15_moved_subroutine_example :
+  fiso ie_r ie_g ie_f ie_f' /\
+  run_all ie_f 100 = Done ie_res /\ run_all ie_f' 100 = Done (ren_result ie_r ie_res).
+Proof. exact (conj ie_fiso (conj ie_run_all ie_run_all')). Qed.
+
+Print Assumptions C15_isomorphic_functions.
+Print Assumptions C15_isomorphic_verdict.
+Print Assumptions C15_isomorphic_verdict_conv.
+Print Assumptions C15_iso_check_sound.
+Print Assumptions C15_moved_subroutine_example.
